@@ -39,6 +39,9 @@ type c14Prog struct {
 	failReq map[*pgReq]bool
 }
 
+// c14OnlyReadHandles: the programs for a ReadOnly() server open every handle for reading.
+var c14OnlyReadHandles bool
+
 const c14Pre = 65536 // rw files: [0,c14Pre) pre-populated and only read; writes land at c14Pre and above
 
 // c14Build: INIT, the OPENs, then the interleaved (READ|WRITE)^k CLOSE sequences.
@@ -65,6 +68,9 @@ func c14BuildF(rng *rand.Rand, nh, kmax int, big, openPipelined bool, maxTx uint
 		h := &c14H{mode: []string{"r", "w", "rw", "w", "r"}[rng.Intn(5)]}
 		if putFail {
 			h.mode = []string{"w", "w", "r"}[rng.Intn(3)]
+		}
+		if c14OnlyReadHandles {
+			h.mode = "r"
 		}
 		pflags := uint32(1)
 		switch h.mode {
@@ -383,12 +389,21 @@ func runC14(c *Ctx) {
 			}
 		}
 		// os-backed server, big transfers
-		for _, cfg := range []c02Cfg{{false, false, 0}, {false, true, 0}, {false, true, 262144}} {
+		// (the fourth configuration is a server with the ReadOnly() option: reads and closes are what such a server is for, and
+		// its CLOSE waits for the reads before it like any other)
+		for ci, cfg := range []c02Cfg{{false, false, 0}, {false, true, 0}, {false, true, 262144}, {false, pi%2 == 1, 0}} {
 			kb := kmax
 			if kb > 12 {
 				kb = 12
 			}
+			readOnly := ci == 3
+			if readOnly {
+				kb = kmax
+				c.Stat("cases_os_readonly_server")
+			}
+			c14OnlyReadHandles = readOnly
 			p := c14Build(rand.New(rand.NewSource(seed)), nh, kb, true, openPipe, cfg.maxTx)
+			c14OnlyReadHandles = false
 			dir, err := os.MkdirTemp("", "vh-c14-")
 			if err != nil {
 				c.Diag("c14 mktemp: %v", err)
@@ -400,7 +415,7 @@ func runC14(c *Ctx) {
 					os.WriteFile(dir+"/"+h.wire, pgPatBytes(h.fileNo, 0, c14Pre), 0o644)
 				}
 			}
-			in, err := pgStart(pgInstOpt{alloc: cfg.alloc, maxTx: cfg.maxTx, workDir: dir})
+			in, err := pgStart(pgInstOpt{alloc: cfg.alloc, maxTx: cfg.maxTx, workDir: dir, readOnly: readOnly})
 			if err != nil {
 				os.RemoveAll(dir)
 				c.Diag("c14 setup: %v", err)
@@ -408,7 +423,7 @@ func runC14(c *Ctx) {
 			}
 			res := pgRun(in, p.reqs, pgRunOpt{})
 			down := in.shutdown()
-			n := c.Case(kind, kvs("srv", "os"), kvb("alloc", cfg.alloc), kvx("maxtx", uint64(cfg.maxTx)), kvx("seed", uint64(seed)), kvi("handles", nh), kvi("kmax", kb), kvi("reqs", len(p.reqs)))
+			n := c.Case(kind, kvs("srv", "os"), kvb("alloc", cfg.alloc), kvx("maxtx", uint64(cfg.maxTx)), kvx("seed", uint64(seed)), kvi("handles", nh), kvi("kmax", kb), kvi("reqs", len(p.reqs)), kvb("readonly", readOnly))
 			ov := 0
 			ok, why := c14Check(p, res.resps, openPipe, &ov)
 			if ok && ov == 0 {
